@@ -1,5 +1,6 @@
 import StatimeModel.Lemmas.Fml
 import StatimeModel.Lemmas.FmlSteady
+import StatimeModel.Lemmas.FmlMulti
 import StatimeModel.Generated.Consts
 /-
 C06 — Foreign masters qualify only by sustained Announces and expire when silent.
@@ -458,8 +459,8 @@ period, consecutive sequence numbers modulo 2^16 — so the 65535→0 wrap is in
 and a BMCA period shorter than the window. Every BMCA run then selects that master, with the
 Announce of the round, for ever. With several foreign masters on one port the statement is about
 the best of them only (the others lose their newest record on every run and are not re-registered —
-`atMost_one_bmca` above is the one-record instance of that); that case is not a theorem here, the
-`fml` stream's oracle ("steady-master-dropped") and the correspondence check it on the implementation. -/
+`atMost_one_bmca` above is the one-record instance of that): `steady_master_among_others_is_never_dropped`
+further down. -/
 
 /-- rounds of `[Announce a, BMCA step s]` -/
 def rounds : List (Ann × Int) → List FOp
@@ -525,6 +526,176 @@ example :
       [(annOf' 5 1 65535, 1000), (annOf' 5 1 0, 1000), (annOf' 5 1 1, 1000)] := by
   simp only [Chain, Steady.Next, Steady.Ctx.Listens]
   decide +kernel
+
+/-! ### … and among other masters
+
+The same statement for a port that hears several foreign masters, where the steady one is the best of them:
+`Lemmas/FmlMulti.lean` splits the list around the steady master's entry and shows that every operation acts on
+that entry as in the one-master case while the others keep their shape. -/
+
+theorem fmlRun_append (acc : Option (List Nat)) (xs ys : List FOp) : ∀ (l : FML),
+    fmlRun acc l (xs ++ ys) = ((fmlRun acc (fmlRun acc l xs).1 ys).1, (fmlRun acc l xs).2 ++ (fmlRun acc (fmlRun acc l xs).1 ys).2) := by
+  induction xs with
+  | nil => intro l; simp [fmlRun]
+  | cons x xs ih =>
+    intro l
+    simp only [List.cons_append, fmlRun]
+    rw [ih]
+
+/-- a round: Announces of other senders, the steady master's Announce, more Announces of others, a BMCA run -/
+structure Round where
+  before : List Ann
+  a : Ann
+  after : List Ann
+  s : Int
+
+def Round.ops (r : Round) : List FOp :=
+  r.before.map .announce ++ [.announce r.a] ++ r.after.map .announce ++ [.bmca r.s]
+
+def mrounds : List Round → List FOp
+  | [] => []
+  | r :: rs => r.ops ++ mrounds rs
+
+def mexpected (own : PortId) : List Round → List (Option Best)
+  | [] => []
+  | r :: rs => List.replicate r.before.length none ++ [none] ++ List.replicate r.after.length none ++ [some ⟨r.a, 0, own⟩] ++ mexpected own rs
+
+def MChain (c : Steady.Ctx) (G : Ann → Prop) (cutoff : Int) : Nat → List Round → Prop
+  | _, [] => True
+  | q, r :: rs => (∀ a' ∈ r.before ++ r.after, Multi.SOther c G a') ∧ Steady.Next c q r.a ∧ G r.a ∧ r.s < cutoff ∧
+      MChain c G cutoff r.a.hdr.seq rs
+
+/-- Announces of other senders: nothing is reported, the shape between rounds is kept -/
+theorem others_post (c : Steady.Ctx) (G : Ann → Prop) (as : List Ann) : ∀ (l : FML) (q : Nat),
+    Multi.MPost c G l q → (∀ a' ∈ as, Multi.SOther c G a') →
+    (fmlRun c.acc l (as.map .announce)).2 = List.replicate as.length none ∧
+    Multi.MPost c G (fmlRun c.acc l (as.map .announce)).1 q := by
+  induction as with
+  | nil => intro l q h _; exact ⟨rfl, h⟩
+  | cons a as ih =>
+    intro l q h hs
+    have h1 := Multi.m_announce_other_post c G l q a h (hs a List.mem_cons_self)
+    have := ih _ q h1 (fun x hx => hs x (List.mem_cons_of_mem _ hx))
+    simp only [List.map_cons, fmlRun, fmlStep, List.length_cons, List.replicate_succ]
+    exact ⟨by rw [this.1], this.2⟩
+
+theorem others_mid (c : Steady.Ctx) (G : Ann → Prop) (a : Ann) (as : List Ann) : ∀ (l : FML),
+    Multi.MMid c G l a → (∀ a' ∈ as, Multi.SOther c G a') →
+    (fmlRun c.acc l (as.map .announce)).2 = List.replicate as.length none ∧
+    Multi.MMid c G (fmlRun c.acc l (as.map .announce)).1 a := by
+  induction as with
+  | nil => intro l h _; exact ⟨rfl, h⟩
+  | cons x as ih =>
+    intro l h hs
+    have h1 := Multi.m_announce_other_mid c G l a x h (hs x List.mem_cons_self)
+    have := ih _ h1 (fun y hy => hs y (List.mem_cons_of_mem _ hy))
+    simp only [List.map_cons, fmlRun, fmlStep, List.length_cons, List.replicate_succ]
+    exact ⟨by rw [this.1], this.2⟩
+
+theorem cutoff_post (c : Steady.Ctx) (G : Ann → Prop) (l l' : FML) (q q' : Nat) (h : Multi.MPost c G l q)
+    (h' : Multi.MPost c G l' q') : l'.cutoff = l.cutoff := Steady.cutoff_congr l l' (by rw [h'.1, h.1])
+
+theorem one_round (c : Steady.Ctx) (G : Ann → Prop) (hl : c.Listens) (r : Round) (l : FML) (q : Nat)
+    (hpos : 0 < l.cutoff) (hp : Multi.MPost c G l q)
+    (hb : ∀ a' ∈ r.before ++ r.after, Multi.SOther c G a') (hn : Steady.Next c q r.a) (hG : G r.a) (hs : r.s < l.cutoff) :
+    (fmlRun c.acc l r.ops).2 =
+      List.replicate r.before.length none ++ [none] ++ List.replicate r.after.length none ++ [some ⟨r.a, 0, c.own⟩] ∧
+    Multi.MPost c G (fmlRun c.acc l r.ops).1 r.a.hdr.seq := by
+  have h1 := others_post c G r.before l q hp (fun x hx => hb x (List.mem_append_left _ hx))
+  have hc1 : (fmlRun c.acc l (r.before.map .announce)).1.cutoff = l.cutoff := cutoff_post c G l _ q q hp h1.2
+  have h2 := Multi.m_announce_src c G _ q r.a hl (by rw [hc1]; exact hpos) h1.2 hn
+  have hc2 : (bmcaRegister (fmlRun c.acc l (r.before.map .announce)).1 c.acc r.a).1.cutoff = l.cutoff :=
+    Steady.cutoff_congr l _ (by rw [h2.1, hp.1])
+  have h3 := others_mid c G r.a r.after _ h2 (fun x hx => hb x (List.mem_append_right _ hx))
+  have hc3 : (fmlRun c.acc (bmcaRegister (fmlRun c.acc l (r.before.map .announce)).1 c.acc r.a).1 (r.after.map .announce)).1.cutoff = l.cutoff :=
+    Steady.cutoff_congr l _ (by rw [h3.2.1, hp.1])
+  have h4 := Multi.m_bmca c G _ r.a r.s hl (by rw [hc3]; exact hs) hn.1 hn.2.2 hG h3.2
+  unfold Round.ops
+  rw [fmlRun_append, fmlRun_append, fmlRun_append]
+  simp only [fmlRun, fmlStep]
+  rw [h1.1, h3.1, h4.1]
+  exact ⟨by simp, h4.2⟩
+
+theorem steady_among_others_from_post (c : Steady.Ctx) (G : Ann → Prop) (hl : c.Listens) (rs : List Round) :
+    ∀ (l : FML) (q : Nat), 0 < l.cutoff → Multi.MPost c G l q → MChain c G l.cutoff q rs →
+      (fmlRun c.acc l (mrounds rs)).2 = mexpected c.own rs := by
+  induction rs with
+  | nil => intro l q _ _ _; rfl
+  | cons r rs ih =>
+    intro l q hpos hp hch
+    obtain ⟨hb, hn, hG, hs, hrest⟩ := hch
+    have h := one_round c G hl r l q hpos hp hb hn hG hs
+    have hc : (fmlRun c.acc l r.ops).1.cutoff = l.cutoff := cutoff_post c G l _ q _ hp h.2
+    have := ih _ r.a.hdr.seq (by rw [hc]; exact hpos) h.2 (by rw [hc]; exact hrest)
+    simp only [mrounds, mexpected]
+    rw [fmlRun_append, h.1, this]
+
+/-- a lower priority1 and another grandmaster: better both ways round (Figure 34, first test) -/
+theorem dom_of_lower_priority1 (own : PortId) (a a' : Ann) (hgm : a.body.gm ≠ a'.body.gm) (hp : a.body.p1 < a'.body.p1) :
+    Multi.Dom own a a' := by
+  unfold Multi.Dom CmpDS.compare
+  have h1 : ¬ (CmpDS.ofAnnounce a own).gmId = (CmpDS.ofAnnounce a' own).gmId := hgm
+  have h2 : ¬ (CmpDS.ofAnnounce a' own).gmId = (CmpDS.ofAnnounce a own).gmId := fun e => hgm e.symm
+  rw [if_neg h1, if_neg h2]
+  have hlt : (CmpDS.ofAnnounce a own).gmP1 < (CmpDS.ofAnnounce a' own).gmP1 := hp
+  have hnlt : ¬ (CmpDS.ofAnnounce a' own).gmP1 < (CmpDS.ofAnnounce a own).gmP1 := by
+    have : (CmpDS.ofAnnounce a' own).gmP1 = a'.body.p1 := rfl
+    have : (CmpDS.ofAnnounce a own).gmP1 = a.body.p1 := rfl
+    omega
+  constructor
+  · unfold compareDifferent lexCmp
+    rw [if_pos hlt]
+    rfl
+  · unfold compareDifferent lexCmp
+    rw [if_neg hnlt, if_pos hlt]
+    rfl
+
+/-- **A master that keeps announcing is never dropped — among other masters.** A port hears any number of foreign
+masters. One of them (`c.src`) announces once per BMCA period with consecutive sequence numbers modulo 2^16, and
+each of its Announces beats, in the data set comparison, everything the others announce (`SOther`; for instance by
+a lower priority1, `dom_of_lower_priority1`). The others may announce whatever and whenever they like, between the
+rounds and inside them. Then, from the steady master's first Announce on, every BMCA run — for any number of
+rounds and sequence-number wraps — reports it as Erbest with the Announce of that round. -/
+theorem steady_master_among_others_is_never_dropped (c : Steady.Ctx) (G : Ann → Prop) (hl : c.Listens) (l0 : FML)
+    (hint : l0.interval = c.interval) (hown : l0.own = c.own)
+    (hothers : Multi.Others c.src (Multi.SOther c G) l0.masters) (hroom : l0.masters.length < MAX_FOREIGN_MASTERS)
+    (a0 : Ann) (hsrc : a0.hdr.src = c.src) (hq : a0.hdr.seq < 65536) (hsteps : a0.body.steps < STEPS_CUTOFF)
+    (hpos : 0 < l0.cutoff) (rs : List Round) (hch : MChain c G l0.cutoff a0.hdr.seq rs) :
+    (fmlRun c.acc l0 (.announce a0 :: mrounds rs)).2 = none :: mexpected c.own rs := by
+  have hp := Multi.m_first c G l0 a0 hl hint hown hothers hroom hsrc hq hsteps hpos
+  have hc : (bmcaRegister l0 c.acc a0).1.cutoff = l0.cutoff := Steady.cutoff_congr l0 _ (by rw [hp.1, hint])
+  have := steady_among_others_from_post c G hl rs _ a0.hdr.seq (by rw [hc]; exact hpos) hp (by rw [hc]; exact hch)
+  simp only [fmlRun, fmlStep]
+  rw [this]
+
+/-- the hypotheses are met: a steady master with priority1 10 among two others with priority1 200, across the wrap -/
+example :
+    let c : Steady.Ctx := ⟨65536000000000, ⟨9, 1⟩, none, ⟨5, 1⟩⟩
+    let G : Ann → Prop := fun a => a.body.gm = 5 ∧ a.body.p1 = 10
+    let good (seq : Nat) : Ann := ⟨{ src := ⟨5, 1⟩, seq := seq }, { (annOf' 5 1 0).body with p1 := 10 }⟩
+    let other (clock seq : Nat) : Ann := ⟨{ src := ⟨clock, 1⟩, seq := seq }, { (annOf' clock 1 0).body with p1 := 200 }⟩
+    c.Listens ∧ 0 < (emptyFML c.interval c.own).cutoff ∧
+    MChain c G (emptyFML c.interval c.own).cutoff 65534
+      [⟨[other 7 3], good 65535, [other 8 1], 1000⟩, ⟨[], good 0, [other 7 4, other 8 2], 1000⟩] := by
+  intro c G good other
+  have hso : ∀ clock seq, clock ≠ 5 → Multi.SOther c G (other clock seq) := by
+    intro clock seq hne
+    refine ⟨?_, ?_⟩
+    · intro h
+      have : clock = 5 := by
+        have := congrArg PortId.clock h
+        simpa [other] using this
+      exact hne this
+    · intro a hG
+      apply dom_of_lower_priority1
+      · rw [hG.1]; simp [other, annOf']; omega
+      · rw [hG.2]; simp [other]
+  refine ⟨by simp only [Steady.Ctx.Listens]; decide +kernel, by decide +kernel, ?_⟩
+  simp only [MChain, Steady.Next, List.mem_append, List.mem_cons, List.not_mem_nil, or_false, false_or, forall_eq_or_imp,
+    forall_eq]
+  refine ⟨⟨hso 7 3 (by decide), hso 8 1 (by decide)⟩, ⟨rfl, by decide, by decide⟩, ⟨rfl, rfl⟩, by decide +kernel,
+    ⟨hso 7 4 (by decide), hso 8 2 (by decide)⟩, ⟨rfl, by decide, by decide⟩, ⟨rfl, rfl⟩, by decide +kernel, trivial⟩
+
 
 /-- the successor sequence number (mod 2^16) is always accepted, across the wrap as well -/
 theorem seqStale_next (last : Nat) (h : last < 65536) : seqStale ((last + 1) % 65536) last = false := by
